@@ -9,7 +9,7 @@ CLAIM = dict(
     note="Trusted: as C02, plus the value encodings and the truth tables of user predicates (tables are data for the model; the real predicates are generated from the same tables). Regexp is modelled for literal patterns with ^ / $ anchors only. Bools are kept out of Literal corpora (True == 1).",
     technique="Coq proof (strategy soundness, emitted check vs isinstance) + differential correspondence over a value corpus", design="6 C10")
 
-THEOREMS = ["C10_emit_is_instance", "C10_count_exact", "C10_chain_first", "C10_chain_is_count_when_exclusive", "C10_chain_sound", "C10_count_sound", "C10_next_sibling_refuted"]
+THEOREMS = ["C10_emit_is_instance", "C10_count_exact", "C10_chain_first", "C10_chain_is_count_when_exclusive", "C10_chain_sound", "C10_count_sound", "C10_preferred_over_bound_classes", "C10_next_sibling_refuted"]
 ASSUMPTIONS = ["user predicates are total on the corpus (they are table lookups) so that only the library's own checks can raise"]
 
 
